@@ -71,7 +71,7 @@ func h1GenFree(prop string) func(rng *simkit.Rand, tier string, idx int) *simkit
 		c.Cfg["yield_den"] = []int64{0, 64, 8, 2}[rng.Intn(4)]
 		c.Cfg["net_quantum_us"] = []int64{0, 1000, 1000, 10000}[rng.Intn(4)]
 		if prop == "C14" {
-			c.Cfg["expiry_probe"] = int64(rng.Intn(2))
+			c.Cfg["expiry_probe"] = int64(rng.Intn(4) / 1 % 2) | 1
 		}
 		steps := rng.Range(6, 24)
 		if tier == "thorough" {
@@ -136,7 +136,7 @@ func h1ExecFree(run *simkit.Run) {
 		w.emitChecks = false
 		w.closeAll()
 	}()
-	if run.Failed() {
+	if run.Stop() {
 		return
 	}
 	for _, nd := range w.nodes {
@@ -168,13 +168,13 @@ func h1ExecFree(run *simkit.Run) {
 	}
 	sample()
 	for i, op := range c.Script {
-		if run.Failed() {
+		if run.Stop() {
 			break
 		}
 		run.Step = i
 		run.Steps++
 		// sleep in slices so that invariants are sampled while gossip runs
-		for d := time.Duration(op.D); d > 0 && !run.Failed(); {
+		for d := time.Duration(op.D); d > 0 && !run.Stop(); {
 			s := d
 			if s > 10*interval && op.K != "longwait" {
 				s = 10 * interval
@@ -238,7 +238,7 @@ func h1ExecFree(run *simkit.Run) {
 		}
 		sample()
 	}
-	if !run.Failed() {
+	if !run.Stop() {
 		f.settleFree()
 	}
 	if run.ProbeCount("c02.partial_view") > 0 || run.ProbeCount("c11.crash") > 0 || run.ProbeCount("c11.leave") > 0 || run.ProbeCount("c12.fd_window_wrapped") > 0 {
@@ -276,7 +276,11 @@ func (f *h1Free) noteExpired(o int, id string) {
 	l.arrivals = nil
 	f.mu.Unlock()
 	if f.expiryProbe {
-		f.digestDuringExpiry(o, id)
+		// Never from this goroutine: the callback may run under o's state lock
+		// and the probe reads a peer's state; two nodes expiring each other
+		// at once would deadlock on a lock cycle of the harness's own making.
+		go f.digestDuringExpiry(o, id)
+		runtime.Gosched()
 	}
 }
 
@@ -476,7 +480,7 @@ func (f *h1Free) settleFree() {
 		synctest.Wait()
 		w.checkAll(nil)
 		f.checkLifecycle(false)
-		if run.Failed() {
+		if run.Stop() {
 			return
 		}
 		if ok, why = w.converged(); ok {
